@@ -10,14 +10,18 @@ Property theorems only (helper lemmas live in `Lemmas/Pretty*.lean`).  The model
 What is proved here is everything about the printer that is *not* Python's `repr`/`eval`: the
 rendered text is the one-line form with layout inserted (so it denotes the same expression), the
 one-line form is chosen exactly when it fits, kept lines fit, indentation is regular, abbreviations
-count exactly, cycles end in the marker and `traverse` is total.  "Evaluates back" itself rests on
+count exactly, cycles end in the marker and `traverse` is total; and (last section) that the width
+`Pretty.__rich_measure__` reports is enough to render in, what the options do outside their documented
+domain, and that the root's `last` flag cannot be observed.  "Evaluates back" itself rests on
 `eval` and on `repr` of leaves, which are runtime: it is evaluated on every generated case by
 `harness/props/c16.py`.
 
 All theorems hold for an **arbitrary width function** `cw` and any `max_width`, `indent_size`,
-tree size and depth.  `Variant.repaired` is the code with the two fixes (`fix:` commits 376cec1, e5d1b9a), which is what
-/repo contains now; `Variant.today` (the name dates from before those commits) is rich 9.10.0 as found
-(witnesses `old_*` show where it breaks the statement).
+tree size and depth.  `Variant.repaired` is the code with the three fixes (`fix:` commits 376cec1, e5d1b9a,
+db5535b), which is what /repo contains now; `Variant.today` (the name dates from before those commits) is
+rich 9.10.0 as found; `Variant.current` (the name dates from before db5535b) is the code with the first two
+fixes only, i.e. with `__rich_measure__` still ignoring `expand_all` (witnesses `old_*` show where the
+as-found behaviour breaks the statement).
 -/
 namespace RichModel.C16
 open RichModel RichModel.Pretty
@@ -383,7 +387,8 @@ theorem repaired_empty_array :
 
 /-! ## `Pretty.__rich_measure__` (the Pretty clause of C09) and options outside their domain -/
 
-/-- **pretty_measure_sound** (code that passes `expand_all` to the measurement; `margin = 0`).
+/-- **pretty_measure_sound** (code that passes `expand_all` to the measurement, i.e. /repo since fix db5535b;
+`margin = 0`).
 If `__rich_measure__` at an available width `W` reports `Measurement(m, m)`, then rendering the same
 object at width `m` yields only lines of at most `m` cells — for every tree, `W`, indent and
 `expand_all`.  Hypotheses: blanks are one cell wide, and the only line breaks in the text measured are
@@ -430,7 +435,8 @@ def nestedList : Node :=
   .mk [] [] ['['] [']'] [] true false true
     [.mk [] [] ['['] [']'] [] true false true [.mk [] "'a'".toList [] [] [] true false false []]]
 
-/-- **F26 (code as found).**  `__rich_measure__` calls `pretty_repr` without `expand_all`:
+/-- **F26 (rich 9.10.0 as found, before fix db5535b; `Variant.current` = the first two fixes only).**
+`__rich_measure__` calls `pretty_repr` without `expand_all`:
 `Pretty([['a']], expand_all=True)` measures 7 (the one-line form) but renders, at width 7, the line
 `        'a'` of 11 cells — a container sized from the measurement (Panel.fit, a table column) crops it. -/
 theorem old_pretty_measure_unsound :
